@@ -121,6 +121,14 @@ def _recheck(ctx, rrng, last, r):
   """Re-issues recorded calls in a different order (interleaving)."""
   keys = list(last)
   r.shuffle(keys)
+  # unseeded calls in between: they must not disturb seeded results
+  for name in {k[0] for k in keys}:
+    try:
+      rrng.GetRng(name).RandomBits(r.choice([1, 8, 64, 200]))
+      ctx.count('unseeded_calls_interleaved')
+    except Exception as e:  # pylint: disable=broad-except
+      ctx.violation('unseeded-randombits-raised-%s@%s' % (
+          type(e).__name__, name), repr(e), {'name': name})
   for (name, n, seed) in keys:
     ctx.count('evaluations')
     ctx.count('purity_rechecks')
@@ -143,6 +151,7 @@ def _recheck(ctx, rrng, last, r):
 def finalize(agg, tier):
   c = agg['counters']
   inc = ['reach counter %s is zero' % k for k in (
-      'model_comparisons', 'purity_rechecks', 'gen:java', 'gen:trunclcg64',
+      'model_comparisons', 'purity_rechecks', 'unseeded_calls_interleaved',
+      'gen:java', 'gen:trunclcg64',
       'gen:mt19937', 'gen:pcg64') if not c.get(k)]
   return [], inc
